@@ -58,6 +58,10 @@ func init() {
 			outDir = filepath.Join(os.TempDir(), "verif-out")
 		}
 		os.MkdirAll(outDir, 0o755)
+	} else if o := os.Getenv("VERIF_OUT"); o != "" {
+		// development: long exploratory runs that must not overwrite the evidence of the registered commands
+		outDir = o
+		os.MkdirAll(outDir, 0o755)
 	}
 }
 
